@@ -1,5 +1,5 @@
 """Case generators and oracles for the control-flow properties C01, C02, C03, C05, C11."""
-import itertools
+import itertools, re
 from proto import compile_line
 from gen import G, base_cfg, script_src, p_cond, p_block, body_stats, cond_leaves, FLAGS, VARS, TRAINERS
 import sem
@@ -25,12 +25,16 @@ def gen_C01(rnd, n, tier):
         for opt in (True, False): out.append(ctrl_case(body, list(g.labels), opt))
     return out
 
+TEXT_LABEL = re.compile(r"\w+_Text_\d+")
+def norm_text_labels(line): return TEXT_LABEL.sub("<T>", line)
+
 def oracle_ctrl(case, res, seeds=(1, 2, 3, 4, 5, 6)):
     """Behavioural oracle: implementation assembly vs reference semantics."""
     if res["kind"] != "OK":
         return "accepted program was rejected or crashed: %s %s" % (res["kind"], res.get("msg", ""))
     m = case.meta
-    return sem.compare_runs(m["body"], m["labels"], res["text"], m["name"], [s * 7919 + len(case.src) for s in seeds])
+    return sem.compare_runs(m["body"], m["labels"], res["text"], m["name"], [s * 7919 + len(case.src) for s in seeds],
+                            norm=norm_text_labels if m.get("textleaves") else None)
 
 def dist_ctrl(cases):
     tot = {}
@@ -198,6 +202,21 @@ def gen_C11(rnd, n, tier):
         for _ in range(20):
             c = g.cond(0, maxd=3)
             if any(l[0] == "auto" for l in cond_leaves(c)): break
+        textleaves = (i % 3 == 0)
+        if textleaves:
+            # auto-var commands whose argument is an inline text: rendered with the hoisted label
+            cnt = [0]
+            def retext(x):
+                if x[0] == "leaf":
+                    l = x[1]
+                    if l[0] == "auto" or rnd.random() < 0.3:
+                        cnt[0] += 1
+                        form, op, val = (l[4], l[5], l[6]) if l[0] == "auto" else ("op", "==", 1)
+                        return ("leaf", ("auto", 'avtext(%d, "ask %d")' % (cnt[0], cnt[0]), "avtext %d, <T>" % cnt[0], "VAR_RESULT", form, op, val))
+                    return x
+                if x[0] in ("paren", "not"): return (x[0], retext(x[1]))
+                return (x[0], retext(x[1]), retext(x[2]))
+            c = retext(c)
         form = rnd.choice(["if", "while", "do", "switch"])
         if form == "if": body = [("if", [(c, [("cmd", "yes", "yes")])], [("cmd", "no", "no")]), ("cmd", "after", "after")]
         elif form == "while": body = [("while", c, [("cmd", "body", "body")]), ("cmd", "after", "after")]
@@ -209,5 +228,6 @@ def gen_C11(rnd, n, tier):
             else: opnd = ("auto", "specialvar(VAR_Y, %d)" % nn, "specialvar VAR_Y, %d" % nn, "VAR_Y")
             body = [("cmd", "before", "before"), ("switch", opnd, sw[2]), ("cmd", "after", "after")]
         cs = ctrl_case(body, [], rnd.random() < 0.5, tag=form)
+        cs.meta["textleaves"] = textleaves
         out.append(cs)
     return out
